@@ -162,6 +162,19 @@ theorem heap_clone_independent_symm (f : Nat) (h h1 h2 : Heap) (a r : Addr)
   intro g n hn
   exact (hw.region_frame (cloneF_region hc) (Nat.le_refl _)).2 g r n b1 b2 hn
 
+/-- The same two statements for literal builder histories: `ops` is any list of calls of
+    AddValue / AddContainer / AddList / Remove / Set / Append / Clear (`Op`, `applyOps`).
+    (i) calls on cells of the clone (or created later) never change any document of the old heap;
+    (ii) calls on cells of the original (or created later) never change the clone. -/
+theorem heap_clone_independent_ops (f : Nat) (h h1 h2 : Heap) (a r : Addr) (ops : List Op)
+    (hc : cloneF f h a = some (h1, r)) (he : applyOps h1 ops = some h2) :
+    ((∀ op ∈ ops, h.size ≤ op.target) →
+      ∀ (g : Nat) (x : Addr) (n : Node), absH g h x = some n → absH g h2 x = some n) ∧
+    ((∀ op ∈ ops, op.target < h.size ∨ h1.size ≤ op.target) →
+      ∀ (g : Nat) (n : Node), absH g h1 r = some n → absH g h2 r = some n) :=
+  ⟨fun hq => (heap_clone_independent f h h1 h2 a r hc (applyOps_writes hq he)).2,
+   fun hq => heap_clone_independent_symm f h h1 h2 a r hc (applyOps_writes hq he)⟩
+
 /-- The general form: writes that avoid what a root reaches (at the time of each write) leave
     that root's abstraction alone. -/
 theorem heap_writes_frame (r : Addr) (h h' : Heap)
@@ -213,6 +226,17 @@ theorem nonvacuous_heap_independent :
       (listClear h2 9).bind fun h3 => abs h3 4) = abs exHeap 4 ∧
     ((Ytk.Heap.clone exHeap 4).bind fun p => (Ytk.Heap.remove p.1 4 "a").bind fun h2 =>
       (Ytk.Heap.listAppend h2 2 0).bind fun h3 => abs h3 13) = abs exHeap 4 := by
+  decide
+
+/-- the same through `applyOps`: a builder history on the clone's cells (13 root, 9 list, 11
+    nested container), then one on the original's -/
+theorem nonvacuous_heap_ops :
+    ((Ytk.Heap.clone exHeap 4).bind fun p =>
+      (applyOps p.1 [.addLeaf 13 "z" ⟨"int", "7"⟩, .listClear 9, .addContainer 11 "k", .remove 13 "a",
+        .listSetLeaf 9 2 ⟨"int", "8"⟩]).bind fun h2 => abs h2 4) = abs exHeap 4 ∧
+    ((Ytk.Heap.clone exHeap 4).bind fun p =>
+      (applyOps p.1 [.remove 4 "b", .listAppend 2 13, .addList 3 "l", .listClear 2]).bind fun h2 =>
+        abs h2 13) = abs exHeap 4 := by
   decide
 
 end heap
